@@ -33,8 +33,8 @@ LEVEL_TEXT = ("Proved in Lean on the model of the whole writer (code as in /repo
               "step), both integer loops (exponent field drops per step, at most bias+2 bytes) and the layouts never PANIC: the call panics iff the caller's slice is shorter than the "
               "highest index touched (regressions of the two repaired panics: zero_required_exponent_regression, max_digits_regression); (c) radix_integer_exact_full / "
               "radix_integer_text_full — integers below 2^53 / 2^24: digits are toDigits r n and the written bytes equal the integer-path model, with the former IeeeExact assumption "
-              "proved (ieeeExact_modelOps); (d) radix_split_exact, radix_fraction_step_partial — float = floor + fraction exactly, each iteration is exact except for the one rounding "
-              "of fraction*base. NOT proved: the ulp bound (C07_radix_error_bound : Prop), measured exactly on every output of the stream; the positional 232-character window "
+              "proved (ieeeExact_modelOps); (d) radix_split_exact, radix_fraction_step_partial, radix_fraction_error_partial — float = floor + fraction exactly, each iteration is exact except for the one rounding "
+              "of fraction*base, and the n digits written before the final round-up satisfy |fraction - 0.d1..dn - fraction_n r^-n| < 2^(5-p)/(r-1) (telescoped). NOT proved: the ulp bound (C07_radix_error_bound : Prop), measured exactly on every output of the stream; the positional 232-character window "
               "(recorded finding).")
 LEVEL_NOTE = ("Trusted: Lean kernel; rustc; hardware IEEE-754 arithmetic incl. exact fmod; differential harness and generators (the model is hand-written, tied by correspondence). "
               "Proof level for well-formedness, termination and the integer clause on the model; the ulp clause is exploration with an exact judge — labelled partial.")
